@@ -779,13 +779,10 @@ def snark(fn):
 
         if kwargs: raise ValueError("@snark-decorated functions cannot have keyword arguments")
 
-        argscopy = for_each_in(lambda x: PubVal(x) if isinstance(x,int) else x, args)
-        argscopy = for_each_in(lambda x: PubValFxp(x) if isinstance(x,float) else x, argscopy)
-        argscopy = for_each_in(lambda x: PubValBool(x) if isinstance(x,bool) else x, argscopy)
+        # convert in a single pass so that public inputs/outputs are created in argument/result order
+        argscopy = for_each_in(lambda x: PubVal(x) if isinstance(x,int) else (PubValFxp(x) if isinstance(x,float) else x), args)
         ret = fn(*argscopy, **kwargs)
-        retcopy = for_each_in(lambda x: x.val() if isinstance(x,LinComb) else x, ret)
-        retcopy = for_each_in(lambda x: x.val() if isinstance(x,LinCombFxp) else x, retcopy)
-        retcopy = for_each_in(lambda x: x.val() if isinstance(x,LinCombBool) else x, retcopy)
+        retcopy = for_each_in(lambda x: x.val() if isinstance(x,(LinComb,LinCombFxp,LinCombBool)) else x, ret)
 
         return retcopy
         
